@@ -15,9 +15,9 @@ cleanup() { git -C /repo worktree remove --force "$wt" >/dev/null 2>&1; rm -rf "
 trap cleanup EXIT
 cd "$wt" || exit 2
 cp "$src"/*_test.go "$dest"/ 2>>"$log" || { echo "no demo file" >>"$log"; }
-echo "== head: $(git rev-parse --short HEAD)" >>"$log"
+echo "== head: $(git rev-parse --short HEAD)  demo environment: ${DEMO_ENV:-default}" >>"$log"
 echo "== demo without the change (must pass)" >>"$log"
-go test -vet=off -count=1 -run "$re" "$pkg" >>"$log" 2>&1; r1=$?
+env ${DEMO_ENV:-} go test -vet=off -count=1 -run "$re" "$pkg" >>"$log" 2>&1; r1=$?
 echo "exit=$r1" >>"$log"
 echo "== apply patch" >>"$log"
 git apply "$src/patch.diff" >>"$log" 2>&1; ra=$?
@@ -25,7 +25,7 @@ echo "exit=$ra" >>"$log"
 go build ./... >>"$log" 2>&1; rb=$?
 echo "== build with the change: exit=$rb" >>"$log"
 echo "== demo with the change (must fail)" >>"$log"
-go test -vet=off -count=1 -run "$re" "$pkg" >>"$log" 2>&1; r2=$?
+env ${DEMO_ENV:-} go test -vet=off -count=1 -run "$re" "$pkg" >>"$log" 2>&1; r2=$?
 echo "exit=$r2" >>"$log"
 rm -f "$dest"/zz_demo_*_test.go
 rs=skipped
